@@ -572,7 +572,8 @@ Qed.
 Lemma nodes_eq_refl l : nodes_eq l l = true.
 Proof. induction l as [|x l IH]; cbn; [reflexivity|]. rewrite node_eq_refl, IH. reflexivity. Qed.
 
-(* exact characterisation of what the current code accepts: ordered HedTag/HedGroup
+(* record (fs = false, behaviour before fix commit cbb8087): exact characterisation of what
+   the ordered comparison accepted: ordered HedTag/HedGroup
    equality with the stored (sorted) expansion, tag first *)
 Lemma defexpand_valid_partial D t g :
   defexpand_accepted false D t g = true <->
@@ -948,4 +949,144 @@ Proof.
   intros Hw He. destruct (expansion_shape D t ch Hw He) as (c & -> & _ & _).
   exists (set_base t BDefExpand), c.
   destruct (switch_keeps_namespace t BDefExpand) as (H1 & H2 & _ & _ & H5). auto.
+Qed.
+
+(* ------------------------------------------------------------------ the substituted content, declaratively *)
+
+(* "content with '#' replaced by v": every tag that holds a placeholder gets v for each '#' *)
+Definition plug (v : str) (t : tag) : tag := if is_placeholder t then replace_placeholder t v else t.
+Fixpoint plug_node (v : str) (n : node) : node :=
+  match n with
+  | T t => T (plug v t)
+  | G ch => G (map (plug_node v) ch)
+  end.
+
+Definition ph_count (l : list node) : nat := length (filter is_placeholder (all_tags_f l)).
+
+Lemma subst_list_done_true v l : subst_list v true l = (true, l).
+Proof.
+  assert (Hn : forall n, subst_node v true n = (true, n)).
+  { induction n as [t | ch IH] using node_ind2; [reflexivity|]. rewrite subst_node_G.
+    assert (H : subst_list v true ch = (true, ch)).
+    { induction IH as [|x r Hx Hr IHr]; [reflexivity|]. cbn [subst_list]. rewrite Hx, IHr. reflexivity. }
+    rewrite H. reflexivity. }
+  induction l as [|x r IH]; [reflexivity|]. cbn [subst_list]. rewrite Hn, IH. reflexivity.
+Qed.
+
+Lemma plug_node_id v n : existsb is_placeholder (all_tags n) = false -> plug_node v n = n.
+Proof.
+  induction n as [t | ch IH] using node_ind2; cbn [all_tags plug_node existsb].
+  - rewrite orb_false_r. unfold plug. intros ->. reflexivity.
+  - rewrite existsb_flat_map. intro H. f_equal.
+    induction IH as [|x r Hx Hr IHr]; [reflexivity|]. cbn [existsb map] in *.
+    apply orb_false_iff in H as [H1 H2]. rewrite Hx, IHr; auto.
+Qed.
+
+Lemma plug_list_id v l : existsb is_placeholder (all_tags_f l) = false -> map (plug_node v) l = l.
+Proof.
+  unfold all_tags_f. rewrite existsb_flat_map.
+  induction l as [|x r IH]; [reflexivity|]. cbn [existsb map]. intro H.
+  apply orb_false_iff in H as [H1 H2]. rewrite plug_node_id, IH; auto.
+Qed.
+
+Lemma filter_nil_existsb {A} (p : A -> bool) l : length (filter p l) = 0 -> existsb p l = false.
+Proof.
+  induction l as [|x r IH]; [reflexivity|]. cbn [filter existsb].
+  destruct (p x); cbn [length]; [discriminate | exact IH].
+Qed.
+
+Lemma ph_count_app l1 l2 :
+  length (filter is_placeholder (l1 ++ l2)) =
+  length (filter is_placeholder l1) + length (filter is_placeholder l2).
+Proof. rewrite filter_app, app_length. reflexivity. Qed.
+
+(* with at most one placeholder tag, "the first one" is "every one" *)
+Lemma subst_node_plug v n :
+  length (filter is_placeholder (all_tags n)) <= 1 -> snd (subst_node v false n) = plug_node v n.
+Proof.
+  induction n as [t | ch IH] using node_ind2; intro Hc.
+  - cbn [subst_node plug_node]. unfold plug. destruct (is_placeholder t); reflexivity.
+  - rewrite subst_node_G. cbn [plug_node all_tags] in *.
+    assert (H : snd (subst_list v false ch) = map (plug_node v) ch).
+    { induction IH as [|x r Hx Hr IHr]; [reflexivity|].
+      cbn [flat_map] in Hc. rewrite ph_count_app in Hc. cbn [subst_list map].
+      pose proof (subst_node_done v x false) as Hd. cbn [orb] in Hd.
+      assert (Hx1 : snd (subst_node v false x) = plug_node v x) by (apply Hx; lia).
+      destruct (subst_node v false x) as [d1 x'] eqn:Ex. cbn [fst snd] in Hd, Hx1.
+      assert (Hx' : x' = plug_node v x) by exact Hx1.
+      destruct d1.
+      - (* the placeholder was in x: the rest has none *)
+        rewrite subst_list_done_true. cbn [snd]. rewrite Hx'. f_equal. symmetry.
+        apply plug_list_id. unfold all_tags_f. apply filter_nil_existsb.
+        assert (1 <= length (filter is_placeholder (all_tags x))).
+        { destruct (filter is_placeholder (all_tags x)) eqn:Ef; [|cbn; lia].
+          exfalso. symmetry in Hd. rewrite <- Ef in *.
+          assert (existsb is_placeholder (all_tags x) = false)
+            by (apply filter_nil_existsb; rewrite Ef; reflexivity). congruence. }
+        lia.
+      - destruct (subst_list v false r) as [d2 r'] eqn:Er. cbn [snd] in *.
+        rewrite Hx'. f_equal. apply IHr. lia. }
+    destruct (subst_list v false ch) as [d ch']. cbn [snd] in *. rewrite H. reflexivity.
+Qed.
+
+Lemma subst_list_plug v l : ph_count l <= 1 -> snd (subst_list v false l) = map (plug_node v) l.
+Proof.
+  intro H. pose proof (subst_node_plug v (G l)) as Hn. cbn [all_tags] in Hn. specialize (Hn H).
+  rewrite subst_node_G in Hn. destruct (subst_list v false l) as [d l']. cbn [snd plug_node] in *.
+  inversion Hn. reflexivity.
+Qed.
+
+(* What a Def tag is replaced by, stated without the model's substitution function:
+   (Def-expand/Name[/v], stored content with v for every '#') when the definition takes
+   a value and one is given; (Def-expand/Name, stored content) when it takes none and
+   none is given; (Def-expand/Name) alone when the definition has no content *)
+Lemma expansion_declarative D t e :
+  wf_dict D = true -> def_entry D t = Some e ->
+  let v := def_placeholder t in
+  let head := T (set_base t BDefExpand) in
+  (etakes e = is_nil v -> expansion D t = None) /\
+  (etakes e = negb (is_nil v) ->
+     match econtents e with
+     | Some (c0 :: c) =>
+         if is_nil v then expansion D t = Some [head; G (c0 :: c)]
+         else ph_count (c0 :: c) <= 1 -> expansion D t = Some [head; G (map (plug_node v) (c0 :: c))]
+     | _ => expansion D t = Some [head]
+     end).
+Proof.
+  intros Hw He. cbv zeta. unfold expansion. rewrite He. unfold get_definition.
+  pose proof (wf_lookup _ _ _ Hw He) as Hwe.
+  split; intro Ht.
+  - rewrite Ht. destruct (is_nil (def_placeholder t)); reflexivity.
+  - rewrite Ht. destruct (is_nil (def_placeholder t)) eqn:En; cbn [negb Bool.eqb].
+    + destruct (econtents e) as [[|c0 c]|]; reflexivity.
+    + destruct (econtents e) as [[|c0 c]|] eqn:Ec; try reflexivity.
+      intro Hc. pose proof (subst_list_plug (def_placeholder t) (c0 :: c) Hc) as Hp.
+      pose proof (subst_list_done (def_placeholder t) (c0 :: c) false) as Hd. cbn [orb] in Hd.
+      destruct (subst_list (def_placeholder t) false (c0 :: c)) as [d c'] eqn:Es. cbn [fst snd] in *.
+      unfold wf_entry in Hwe. rewrite Ec, Ht in Hwe. cbn [negb] in Hwe.
+      apply andb_true_iff in Hwe as [_ Hph]. unfold has_placeholder in Hph.
+      rewrite Hph in Hd. subst d. rewrite Hp. reflexivity.
+Qed.
+
+(* under a well-formed dictionary "left alone" never hides an exception: a Def tag is
+   not expanded exactly when its definition is missing or its value-ness does not match *)
+Lemma expansion_none_iff D t :
+  wf_dict D = true ->
+  (expansion D t = None <->
+   def_entry D t = None \/
+   exists e, def_entry D t = Some e /\ etakes e = is_nil (def_placeholder t)).
+Proof.
+  intro Hw. unfold expansion. destruct (def_entry D t) as [e|] eqn:He.
+  - pose proof (wf_lookup _ _ _ Hw He) as Hwe.
+    destruct (get_definition e (set_base t BDefExpand) (def_placeholder t)) as [[ch|]|x] eqn:Eg.
+    + split; [discriminate|]. intros [H|(e' & H1 & H2)]; [discriminate|]. inversion H1; subst e'.
+      unfold get_definition in Eg. rewrite H2 in Eg.
+      destruct (is_nil (def_placeholder t)); discriminate.
+    + split; [|reflexivity]. intros _. right. exists e. split; [reflexivity|].
+      unfold get_definition in Eg.
+      destruct (etakes e), (is_nil (def_placeholder t)); cbn [Bool.eqb] in *; try reflexivity;
+        destruct (econtents e) as [[|c0 c]|]; try discriminate;
+        try (destruct (subst_list (def_placeholder t) false (c0 :: c)) as [[] ?]; discriminate).
+    + exfalso. eapply wf_no_exn; eauto.
+  - split; [left; reflexivity | reflexivity].
 Qed.
